@@ -1143,6 +1143,11 @@ def check_C03(chk, binp):
         succ = [x.split('=', 1)[1] for x in (r or '').split(';') if '=' in x]
         for p2 in rnd.sample(succ, min(len(succ), 14 if quick else 30)):
             deepch.append('search\t%d\t%d\t5\t-\t1\t8\t1024\t-\t%s@5|%s@1' % (rnd.randrange(1 << 30), rnd.randrange(1 << 50), f, p2))
+    # the second position of a chain may be terminal (checkmate / stalemate two plies below): no report is then correct, and such
+    # chains are left out (terminal roots are the business of C04)
+    p2s = sorted(set(c.split('\t')[-1].split('|')[1].rsplit('@', 1)[0] for c in deepch))
+    live2 = set(f for f, t in zip(p2s, run_cases(MODEL, ['specterm\t' + f for f in p2s], 'C03-deep-term')) if t == 'none')
+    deepch = [c for c in deepch if c.split('\t')[-1].split('|')[1].rsplit('@', 1)[0] in live2]
     deepi = run_cases(binp, deepch, 'C03-deep-impl', shards=16, timeout=1200)
     chk.extra['deeper_first_chains'] = len(deepch)
     allc = cases + mw + ms + deepch; alli = impl + mimpl + msi + deepi
